@@ -55,11 +55,10 @@ vars == <<orig, cur, elim, kind, exact>>
 \* fixes the kind of elimination.  Every system of the class is the orig of exactly 3 started states.
 Init == orig = <<>> /\ kind = "none" /\ cur = {} /\ elim = {} /\ exact = TRUE
 AddRow == /\ kind = "none" /\ Len(orig) < MaxC
-          /\ \E r \in Rows2 \cup Rows3 :
-                /\ Len(orig) > 0 => RowLeq(orig[Len(orig)], r)
-                /\ Len(orig) < 2 => r \in Rows2
-                /\ Len(orig) = 2 => \A f \in RangeOf(orig) \cup {r} : f \in Rows3
-                /\ orig' = Append(orig, r)
+          /\ LET cand == IF Len(orig) < 2 THEN Rows2
+                         ELSE IF \A f \in RangeOf(orig) : f \in Rows3 THEN Rows3 ELSE {} IN
+             \E r \in cand : /\ (Len(orig) > 0 => RowLeq(orig[Len(orig)], r))
+                             /\ orig' = Append(orig, r)
           /\ UNCHANGED <<cur, elim, kind, exact>>
 Start == /\ kind = "none" /\ Len(orig) >= MinC
          /\ kind' \in {"rat", "real", "dark"}
